@@ -32,7 +32,8 @@ def grammar_path(inst):
         n = inst.grammar[2:] if inst.grammar.startswith("g_") else inst.grammar
         if n == "selfhost":
             return os.path.join(extract.REPO, "src", "frontend", "lelwel.llw")
-        return os.path.join(extract.CORPUS, "grammars", n + ".llw")
+        p = os.path.join(extract.CORPUS, "grammars", n + ".llw")
+        return p if os.path.exists(p) else os.path.join(extract.CORPUS, "thorough", n + ".llw")
     c = inst.unit.crate
     if c == "lelwel":
         return os.path.join(extract.REPO, "src", "frontend", "lelwel.llw")
